@@ -46,7 +46,7 @@ def _ftol(kappa, n_solves=1):
     return max(TOL, 100.0 * EPS * kappa * n_solves)
 
 
-def _blocks_close(out, key, u, ref, tol=TOL, scale_from=None, lchar=None):
+def _blocks_close(out, key, u, ref, tol=TOL, scale_from=None, lchar=None, floor=None):
     """translations and rotations are judged separately.  A block that is (theoretically) zero carries round-off of
     the other block's size: translations are never judged finer than tol * max|rotation| * lchar and rotations never
     finer than tol * max|translation| / lchar (lchar = extent of the beam)."""
@@ -58,7 +58,9 @@ def _blocks_close(out, key, u, ref, tol=TOL, scale_from=None, lchar=None):
     for nm, blk, sc in (("trans", slice(0, 3), st_), ("rot", slice(3, 6), sr_)):
         if sc == 0.0:
             sc = float(np.max(np.abs(sf))) or 1.0
-        out.close("%s_%s" % (key, nm), u[:, blk], ref[:, blk], rtol=tol, scale=sc)
+        # floor = (translation, rotation) response to round-off of the loads (RF.roundoff_floor): nothing finer is resolvable
+        out.close("%s_%s" % (key, nm), u[:, blk], ref[:, blk], rtol=tol, scale=sc,
+                  atol=0.0 if floor is None else float(floor[0 if nm == "trans" else 1]))
 
 
 def _extent(nodes):
@@ -120,8 +122,9 @@ def verdict_direct(desc):
     free_loaded = bool(np.any(np.delete(f1, root, axis=0) != 0.0))
     # 1 reference models (two independent methods)
     if free_loaded:
-        _blocks_close(out, "ref_force_method/disp", u1, uf, ftol, lchar=lc)
-        _blocks_close(out, "ref_stiffness/disp", u1, us, 2 * ftol, scale_from=uf, lchar=lc)
+        fl1 = RF.roundoff_floor(nodes, A, Iy, Iz, J, E, G, f1, root)
+        _blocks_close(out, "ref_force_method/disp", u1, uf, ftol, lchar=lc, floor=fl1)
+        _blocks_close(out, "ref_stiffness/disp", u1, us, 2 * ftol, scale_from=uf, lchar=lc, floor=fl1)
     # 2 equilibrium invariant with the reference's K and the displacements under test; clamp
     if free_loaded:
         # (component-wise backward error: 1e-7, or 10 eps cond when bending stiffness EI/L^2 is ten and more decades below
@@ -130,7 +133,8 @@ def verdict_direct(desc):
     umax = float(np.max(np.abs(uf))) or 1.0
     out.le("root_clamped", float(np.max(np.abs(u1[root]))), 1e-12 * umax)
     # 3 linearity, reciprocity
-    _blocks_close(out, "linearity", u3, a * u1 + b * u2, 3 * ftol, lchar=lc)
+    _blocks_close(out, "linearity", u3, a * u1 + b * u2, 3 * ftol, lchar=lc,
+                  floor=RF.roundoff_floor(nodes, A, Iy, Iz, J, E, G, np.abs(f3) + abs(a) * np.abs(f1) + abs(b) * np.abs(f2), root))
     if free_loaded:
         w12 = float(np.sum(f1 * u2))
         w21 = float(np.sum(f2 * u1))
@@ -259,7 +263,8 @@ def verdict_cantilever(desc):
     p = B.beam_problem(nodes, [A1] * n1, [Iy1] * n1, [Iz1] * n1, [J1] * n1, E, G, not full)
     u = B.solve_loads(p, loads)
     kappa = RF.scaled_condition(nodes, [A1] * n1, [Iy1] * n1, [Iz1] * n1, [J1] * n1, E, G, root)
-    _blocks_close(out, "closed_form/disp", u, expected, _ftol(kappa), lchar=_extent(nodes))
+    _blocks_close(out, "closed_form/disp", u, expected, _ftol(kappa), lchar=_extent(nodes),
+                  floor=RF.roundoff_floor(nodes, [A1] * n1, [Iy1] * n1, [Iz1] * n1, [J1] * n1, E, G, loads, root))
     if kappa > 1e7:
         out.label("ill_conditioned(cond>1e7)")
     out.le("root_clamped", float(np.max(np.abs(u[root]))), 1e-12 * (float(np.max(np.abs(expected))) or 1.0))
@@ -328,7 +333,8 @@ def verdict_rotation(desc):
     kappa = max(RF.scaled_condition(nodes, A, Iy, Iz, J, E, G, root), RF.scaled_condition(nodes_r, A, Iy, Iz, J, E, G, root))
     free_loaded = bool(np.any(np.delete(f, root, axis=0) != 0.0))
     if free_loaded:
-        _blocks_close(out, "rotation/disp", ur, u_rot, _ftol(kappa, 2), lchar=_extent(nodes))
+        _blocks_close(out, "rotation/disp", ur, u_rot, _ftol(kappa, 2), lchar=_extent(nodes),
+                      floor=RF.roundoff_floor(nodes, A, Iy, Iz, J, E, G, f, root))
     out.label("kind=" + desc["beam"]["kind"])
     out.nontrivial = bool(free_loaded and np.max(np.abs(u)) > 0 and np.max(np.abs(Rm - np.eye(3))) > 1e-3)
     return out
@@ -406,7 +412,8 @@ def verdict_alone(desc):
     kappa = RF.scaled_condition(nodes, g["A"], g["Iy"], g["Iz"], g["J"], E, G, root)
     free_loaded = bool(np.any(np.delete(f, root, axis=0) != 0.0))
     if free_loaded:
-        _blocks_close(out, "alone/ref_force_method/disp", g["disp"], uf, _ftol(kappa), lchar=_extent(nodes))
+        _blocks_close(out, "alone/ref_force_method/disp", g["disp"], uf, _ftol(kappa), lchar=_extent(nodes),
+                      floor=RF.roundoff_floor(nodes, g["A"], g["Iy"], g["Iz"], g["J"], E, G, f, root))
         out.le("alone/equilibrium", RF.equilibrium_backward_error(nodes, g["A"], g["Iy"], g["Iz"], g["J"], E, G, f, root, g["disp"]), TOL)
     out.le("alone/root_clamped", float(np.max(np.abs(g["disp"][root]))), 1e-12 * (float(np.max(np.abs(uf))) or 1.0))
     if desc["model"] == "tube":
